@@ -2431,7 +2431,11 @@ func (c *Conn) sendAlert(ctx context.Context, level alert.Level, desc alert.Desc
 					Description: desc,
 				},
 			},
-			ShouldWrapCID: c.state.ShouldWrapConnectionID(),
+			// The tls12_cid framing belongs to protected records (RFC 9146
+			// Section 4). An alert that still goes out at epoch 0 stays an
+			// ordinary plaintext alert, or the peer cannot read it and is left
+			// waiting for its timeout.
+			ShouldWrapCID: c.state.ShouldWrapConnectionID() && common.LocalEpoch() != 0,
 			ShouldEncrypt: shouldEncrypt,
 		},
 	})
